@@ -130,11 +130,20 @@ type env struct {
 	otg      *ontology.Ontology
 	svc      *rbac.Service
 	groupKey string
+	aliases  map[string]string
 }
 
+// alias renames the random key of the Users group and the 36-byte UUID strings of the case
+// alphabet (ukey(n)) to short names ("k<n>") in everything the harness reports. The renaming
+// is injective, length-uniform per alphabet and introduces no ':' or "->", so it preserves
+// every prefix / suffix relation between relationship keys; it keeps the Coq terms (and the
+// depth of the model's key tries) small.
 func (e *env) alias(k string) string {
 	if k == e.groupKey {
 		return groupAlias
+	}
+	if a, ok := e.aliases[k]; ok {
+		return a
 	}
 	return k
 }
@@ -163,7 +172,7 @@ func (e *env) dump(tx gorp.Tx) view {
 		panic(err)
 	}
 	for _, p := range ps {
-		pj := polj{K: p.Key.String(), Internal: p.Internal, Objs: [][2]string{}, Acts: []string{}}
+		pj := polj{K: e.alias(p.Key.String()), Internal: p.Internal, Objs: [][2]string{}, Acts: []string{}}
 		for _, o := range p.Objects {
 			pj.Objs = append(pj.Objs, [2]string{string(o.Type), o.Key})
 		}
@@ -178,7 +187,7 @@ func (e *env) dump(tx gorp.Tx) view {
 		panic(err)
 	}
 	for _, r := range rs {
-		v.Roles = append(v.Roles, rolej{K: r.Key.String(), Internal: r.Internal})
+		v.Roles = append(v.Roles, rolej{K: e.alias(r.Key.String()), Internal: r.Internal})
 	}
 	sort.Slice(v.Roles, func(a, b int) bool { return v.Roles[a].K < v.Roles[b].K })
 	return v
@@ -215,7 +224,10 @@ func runCase(c tcase) (res result) {
 	rol, err := role.OpenService(ctx, role.ServiceConfig{DB: db, Ontology: otg, Group: grp, Search: idx})
 	must(err)
 	defer func() { _ = rol.Close() }()
-	e := &env{ctx: ctx, db: db, otg: otg, svc: rbac.VerifService(db, pol, rol), groupKey: rol.UsersGroup().OntologyID().Key}
+	e := &env{ctx: ctx, db: db, otg: otg, svc: rbac.VerifService(db, pol, rol), groupKey: rol.UsersGroup().OntologyID().Key, aliases: map[string]string{}}
+	for n := 0; n < 64; n++ {
+		e.aliases[ukey(n).String()] = fmt.Sprint("k", n)
+	}
 	res.Init = e.dump(nil)
 	var tx gorp.Tx
 	defer func() {
@@ -295,7 +307,7 @@ func runCase(c tcase) (res result) {
 			r := rps{E: class(err), K: []string{}}
 			if err == nil {
 				for _, p := range ps {
-					r.K = append(r.K, p.Key.String())
+					r.K = append(r.K, e.alias(p.Key.String()))
 				}
 				sort.Strings(r.K)
 			}
